@@ -197,7 +197,9 @@ def maybe(*choices: str) -> str:
 # number literals.
 Whitespace = r"[ \f\t]+"
 Comment = r"#[^\r\n]*"
-Name = r"\w+"
+# a Python name may hold characters that are not word characters (combining marks, U+00B7, U+2118 ...): a run of word
+# or non-ASCII characters is one NAME if it is an identifier, see next_psuedo_matches
+Name = r"(?:\w|[^\x00-\x7f])+"
 
 Hexnumber = r"0[xX](?:_?[0-9a-fA-F])+"
 Binnumber = r"0[bB](?:_?[01])+"
@@ -528,8 +530,13 @@ def next_psuedo_matches(state: TokenizerState) -> TokenInfo | None:
     if (not match) or (not match.lastgroup):
         return None
     start, end = match.span(match.lastgroup)
-    spos, epos, state.pos = (state.lnum, start), (state.lnum, end), end
     token = state.line[start:end]
+    if match.lastgroup == "Name" and not token.isascii() and not token.isidentifier():
+        end = start + _compile(r"\w*").match(token).end()  # type: ignore[union-attr]  # the word characters it starts with
+        if end == start:
+            return None  # an unknown character
+        token = state.line[start:end]
+    spos, epos, state.pos = (state.lnum, start), (state.lnum, end), end
 
     if match.lastgroup == "StringStart":
         quote = match.group("Quote") or '"'
